@@ -9,6 +9,7 @@ import (
 	"0chain.net/smartcontract/partitions"
 	"0chain.net/smartcontract/provider"
 	"0chain.net/smartcontract/stakepool"
+	"0chain.net/smartcontract/stakepool/spenum"
 
 	cstate "0chain.net/chaincore/chain/state"
 	"0chain.net/chaincore/transaction"
@@ -132,6 +133,11 @@ func (_ *StorageSmartContract) killValidator(
 			if err = balances.GetTrieNode(provider.GetKey(req.ID), validator); err != nil {
 				return nil, nil, common.NewError("kill_validator_failed",
 					"can't get the blobber "+req.ID+": "+err.Error())
+			}
+
+			if validator.ProviderType != spenum.Validator {
+				return nil, nil, common.NewError("kill_validator_failed",
+					"provider "+req.ID+" is not a validator")
 			}
 
 			validatorPartitions, err := getValidatorsList(balances)
